@@ -1,0 +1,115 @@
+//go:build verif
+
+package mqtt
+
+// Contracts for the outgoing publish flow (C01, C02, C07, C11, C12, C19).
+// Comments only; see verif_contracts_codec.go.
+
+//@ spec
+//@ func isRetryErr(e error) bool  { return asRetryErr(e) != nil }
+//@ func retryOf(e error) retryFn  { return asRetryErr(e).retryFn }
+//@ // caller obligations at the API boundary for a message that can be carried
+//@ func carriable(m *Message) bool {
+//@ 	return m != nil && m.QoS <= QoS2 && len(m.Topic) <= 0xFFFF && len(m.Topic)+len(m.Payload)+4 <= 0xFFFFFFF
+//@ }
+//@ end
+
+//@ func wrapErrorWithRetry
+//@   mode int
+//@   props C19
+//@   pure
+//@   ensures[C19] err == nil ==> result == nil
+//@   ensures[C19] err == io.EOF ==> result == io.EOF
+//@   ensures[C01,C19] handle: err != nil && err != io.EOF ==> isRetryErr(result) && fresh(asRetryErr(result)) && sameFunc(retryOf(result), retry) &&
+//@        asError(asRetryErr(result).errorInterface) != nil && asError(asRetryErr(result).errorInterface).Err == err
+
+//@ func (*errorWithRetry).Retry
+//@   mode int
+//@   props C12 C19
+//@   inline
+//@   requires e != nil
+
+//@ func (*BaseClient).ValidateMessage
+//@   mode int
+//@   props C05
+//@   pure
+//@   requires c != nil && message != nil
+//@   ensures[C05] c.MaxPayloadLen != 0 && len(message.Payload) > c.MaxPayloadLen ==> result != nil
+//@   ensures[C05] message.QoS > QoS2 ==> result != nil
+//@   ensures[C05] result == nil ==> message.QoS <= QoS2
+
+//@ func (*BaseClient).Publish
+//@   mode int
+//@   props C05 C12
+//@   requires c != nil && message != nil && ctx != nil && c.Transport != nil
+//@   requires len(message.Topic) <= 0xFFFF && len(message.Topic)+len(message.Payload)+4 <= 0xFFFFFFF
+//@   assigns message.ID; message.Dup; c.idLast
+//@   ensures[C05] reject_len: c.MaxPayloadLen != 0 && len(message.Payload) > c.MaxPayloadLen ==> result != nil && evCount("publishImpl") == 0
+//@   ensures[C05] reject_qos: message.QoS > QoS2 ==> result != nil && evCount("publishImpl") == 0
+//@   ensures[C12] first_dup0: evCount("publishImpl") == 1 ==> evArg[bool]("publishImpl", 0, 3) == false && evArg[*Message]("publishImpl", 0, 2) == message
+
+//@ func publishImpl
+//@   mode int
+//@   props C01 C02 C07 C11 C12 C19
+//@   requires c != nil && ctx != nil && carriable(message) && c.Transport != nil
+//@   assigns message.ID; message.Dup; c.idLast
+//@   let id0 uint16 = message.ID
+//@   let topic0 string = message.Topic
+//@   let qos0 QoS = message.QoS
+//@   let retain0 bool = message.Retain
+//@   let payload0 []byte = message.Payload
+//@   let sig0 *signaller = c.sig
+//@   ensures[C12,C15] id_kept: id0 != 0 ==> message.ID == id0
+//@   ensures[C12,C15] id_new: id0 == 0 ==> message.ID != 0 && evCount("(*BaseClient).newID") == 1 && message.ID == evRet[uint16]("(*BaseClient).newID", 0, 0)
+//@   ensures[C12] dup: message.Dup == dup
+//@   ensures[C12] frame: message.Topic == topic0 && message.QoS == qos0 && message.Retain == retain0 && sameSlice(message.Payload, payload0)
+//@   ensures[C05,C12] wire: evCount("(*BaseClient).write") <= 1 && (evCount("(*BaseClient).write") == 1 ==> seqEq(evBytes("(*BaseClient).write", 0, 1), specPublish(message)))
+//@   ensures[C12] qos0_no_handle: qos0 == QoS0 ==> !isRetryErr(result) && evCount("publishImpl$2") == 0
+//@   ensures[C01,C19] interrupted: sig0 != nil && qos0 > QoS0 && result != nil && result != io.EOF ==> isRetryErr(result)
+//@   ensures[C02,C12] stage1: evCount("publishImpl$2") == 0 && isRetryErr(result) ==>
+//@        closureIs(retryOf(result), "publishImpl$1") && *closureVar[**Message](retryOf(result), "publishImpl$1", 0) == message
+//@   ensures[C02,C12] stage2: evCount("publishImpl$2") == 1 ==> result == evRet[error]("publishImpl$2", 0, 0) && qos0 == QoS2
+//@   ensures[C02,C07] rec_first: evCount("publishImpl$2") == 1 ==> evCount("select") == 1 && evRet[int]("select", 0, 0) == 2 &&
+//@        evIndex("(*BaseClient).write", 0) < evIndex("select", 0) && evIndex("select", 0) < evIndex("publishImpl$2", 0)
+//@   ensures[C07] ack1: result == nil && qos0 == QoS1 ==> evCount("select") == 1 && evRet[int]("select", 0, 0) == 2 &&
+//@        evCount("mapstore:map<uint16,chan *pktPubAck>") == 1 && evArg[uint16]("mapstore:map<uint16,chan *pktPubAck>", 0, 1) == message.ID &&
+//@        evArg[chan *pktPubAck]("mapstore:map<uint16,chan *pktPubAck>", 0, 2) == evArg[chan *pktPubAck]("select", 0, 2) && fresh(evArg[chan *pktPubAck]("select", 0, 2)) &&
+//@        evIndex("mapstore:map<uint16,chan *pktPubAck>", 0) < evIndex("(*BaseClient).write", 0) && evIndex("(*BaseClient).write", 0) < evIndex("select", 0)
+//@   ensures[C07] ack2: evCount("publishImpl$2") == 1 ==>
+//@        evCount("mapstore:map<uint16,chan *pktPubRec>") == 1 && evArg[uint16]("mapstore:map<uint16,chan *pktPubRec>", 0, 1) == message.ID &&
+//@        evArg[chan *pktPubRec]("mapstore:map<uint16,chan *pktPubRec>", 0, 2) == evArg[chan *pktPubRec]("select", 0, 2) && fresh(evArg[chan *pktPubRec]("select", 0, 2)) &&
+//@        evIndex("mapstore:map<uint16,chan *pktPubRec>", 0) < evIndex("(*BaseClient).write", 0)
+//@   ensures[C07,C11] nil_only_acked: result == nil && qos0 > QoS0 ==> evCount("select") == 1 && evRet[int]("select", 0, 0) == 2
+//@   ensures[C11] waitset: evCount("select") == 1 ==> evArg[chan struct{}]("select", 0, 0) == c.connClosed &&
+//@        evArg[<-chan struct{}]("select", 0, 1) == evRet[<-chan struct{}]("context.Context.Done", 0, 0) && evArg[context.Context]("context.Context.Done", 0, 0) == ctx
+//@   ensures[C11] no_bare_block: evCount("recv") == 0 && evCount("send") == 0
+
+//@ func publishImpl$1
+//@   mode int
+//@   props C12
+//@   requires cli != nil && ctx != nil && carriable(message) && cli.Transport != nil
+//@   assigns message.ID; message.Dup; cli.idLast
+//@   ensures[C12] redo: evCount("publishImpl") == 1 && evArg[*BaseClient]("publishImpl", 0, 1) == cli && evArg[*Message]("publishImpl", 0, 2) == message &&
+//@        evArg[bool]("publishImpl", 0, 3) == true && result == evRet[error]("publishImpl", 0, 0)
+
+//@ func publishImpl$2
+//@   mode int
+//@   props C02 C07 C11 C12
+//@   requires cli != nil && ctx != nil && message != nil && cli.Transport != nil
+//@   note closure invariant (established where the closure is created, checked at its direct call in publishImpl): the two captured retry
+//@   note variables hold the PUBLISH-stage and the PUBREL-stage closure over this very message
+//@   requires closureIs(retryPublish, "publishImpl$1") && *closureVar[**Message](retryPublish, "publishImpl$1", 0) == message
+//@   requires closureIs(retryPublish2, "publishImpl$2") && *closureVar[**Message](retryPublish2, "publishImpl$2", 0) == message
+//@   assigns nothing
+//@   let sig0 *signaller = cli.sig
+//@   ensures[C02,C12] only_pubrel: evCount("(*pktPublish).Pack") == 0 && evCount("publishImpl") == 0 && evCount("(*BaseClient).write") <= 1 &&
+//@        (evCount("(*BaseClient).write") == 1 ==> seqEq(evBytes("(*BaseClient).write", 0, 1), specAck(0x62, message.ID)))
+//@   ensures[C02,C12] stage: isRetryErr(result) ==> closureIs(retryOf(result), "publishImpl$2") &&
+//@        *closureVar[**Message](retryOf(result), "publishImpl$2", 0) == message
+//@   ensures[C01,C19] interrupted: sig0 != nil && result != nil && result != io.EOF ==> isRetryErr(result)
+//@   ensures[C07,C11] nil_only_comp: result == nil ==> evCount("select") == 1 && evRet[int]("select", 0, 0) == 2 &&
+//@        evCount("mapstore:map<uint16,chan *pktPubComp>") == 1 && evArg[uint16]("mapstore:map<uint16,chan *pktPubComp>", 0, 1) == message.ID &&
+//@        evArg[chan *pktPubComp]("mapstore:map<uint16,chan *pktPubComp>", 0, 2) == evArg[chan *pktPubComp]("select", 0, 2) && fresh(evArg[chan *pktPubComp]("select", 0, 2)) &&
+//@        evIndex("mapstore:map<uint16,chan *pktPubComp>", 0) < evIndex("(*BaseClient).write", 0) && evIndex("(*BaseClient).write", 0) < evIndex("select", 0)
+//@   ensures[C11] waitset: evCount("select") == 1 ==> evArg[chan struct{}]("select", 0, 0) == cli.connClosed &&
+//@        evArg[<-chan struct{}]("select", 0, 1) == evRet[<-chan struct{}]("context.Context.Done", 0, 0) && evArg[context.Context]("context.Context.Done", 0, 0) == ctx
